@@ -63,6 +63,11 @@ CHECKS = {
         note="Coq kernel + vm_compute; model Model/Heap.v (+ Frame.v for the dtype check); H_pandas_result (which frames pandas passes to __finalize__ is observed); TableOrigin immutable; multi-source unit agreement proved as the local conflict step, exercised by correspondence.",
         design="DESIGN.md section 5/C05",
     ),
+    "C01": dict(
+        text="Theorems for bundles of any length and every separator: text iteration recovers exactly the written lines plus one terminator line per table, and splitting recovers exactly the joined cells; per-table layout round trip (see Properties/C01.v for what is proved and what is still partial). The model-level composition read_csv(write_csv ts) is evaluated with vm_compute on every generated bundle, the writer model is compared byte for byte with write_csv, and the oracle checks the real round trip (count, order, name, destinations, flag, columns, units, values, inputs unmodified) for explicit/default separators and path/stream.",
+        note="Coq kernel + vm_compute; models WriteCsv.v + reader models; H_float_roundtrip, H_dt_roundtrip, H_native sampled per case; no display formats.",
+        design="DESIGN.md section 5/C01",
+    ),
 }
 ALL = [f"C{n:02d}" for n in range(1, 21)]
 NOT_YET = {p: "check not built yet in this revision (planned, see DESIGN.md section 5); not a claim that the technique cannot apply" for p in ALL if p not in CHECKS}
